@@ -11,18 +11,82 @@ when the awaiting task has been cancelled in the meantime the job is *orphaned*:
 later (its thread had started) or never (it was still queued) - both are schedulable.
 """
 import asyncio
+import threading
 
 from . import symx
 from .symx import engine
 
 
+class ThreadKill(BaseException):
+    """Unwinds a parked worker thread at the end of a path."""
+
+
+class Worker:
+    """A job running in a real thread with strict hand-off: exactly one of (scheduler, worker) runs
+    at any time.  The worker parks at every preemption point (a durable storage operation) until
+    the scheduler resumes it."""
+
+    def __init__(self, func, label):
+        self.func, self.label = func, label
+        self.to_worker = threading.Event()
+        self.to_main = threading.Event()
+        self.state = 'new'          # new / parked / done
+        self.result = None
+        self.error = None
+        self.at = None
+        self.kill = False
+        self.thread = threading.Thread(target=self._run, daemon=True)
+
+    def _run(self):
+        CURRENT_WORKER.w = self
+        try:
+            self.result = self.func()
+        except ThreadKill:
+            pass
+        except BaseException as e:   # noqa
+            self.error = e
+        self.state = 'done'
+        self.to_main.set()
+
+    def start(self):
+        self.thread.start()
+        self.to_main.wait()
+        self.to_main.clear()
+
+    def resume(self):
+        self.to_worker.set()
+        self.to_main.wait()
+        self.to_main.clear()
+
+    def park(self, at):
+        self.state = 'parked'
+        self.at = at
+        self.to_main.set()
+        self.to_worker.wait()
+        self.to_worker.clear()
+        if self.kill:
+            raise ThreadKill()
+        self.state = 'running'
+
+
+CURRENT_WORKER = threading.local()
+
+
+def preempt_point(at):
+    """Called by the storage stubs before every durable operation."""
+    w = getattr(CURRENT_WORKER, 'w', None)
+    if w is not None:
+        w.park(at)
+
+
 class Gate:
-    __slots__ = ('label', 'kind', 'fut', 'action', 'orphan', 'seq', 'done')
+    __slots__ = ('label', 'kind', 'fut', 'action', 'orphan', 'seq', 'done', 'cont')
 
     def __init__(self, label, kind, fut, action, seq):
         self.label, self.kind, self.fut, self.action, self.seq = label, kind, fut, action, seq
         self.orphan = False
         self.done = False
+        self.cont = False
 
 
 class Scheduler:
@@ -30,12 +94,14 @@ class Scheduler:
         self.loop = asyncio.new_event_loop()
         self.pending = []
         self.seq = 0
+        self.workers = []
         self._fire = []
         self.deviations = deviations
         self.max_steps = max_steps
         self.steps = 0
         self.trace = []              # labels of opened gates / events, in order
         self.anytime = []            # external events that may be injected as a deviation: (label, fn, once)
+        self.permanent = []          # like anytime, but kept across story steps (e.g. shutdown)
         self.choice_n = 0
         self.filter = None           # optional: callable(gate) -> bool, which gates count as deviation candidates
         self.frozen = []             # gates postponed by a deviation until nothing else can run
@@ -58,8 +124,9 @@ class Scheduler:
                 self.pending.remove(g)
             raise
 
-    def job(self, label):
-        '''run_in_thread replacement.  Two gates per job: the job runs in its thread (executed by the
+    def job(self, label, splittable=False):
+        '''run_in_thread replacement.  Two gates per job (more when splittable: the job runs in a real
+        thread that parks at every durable storage operation, each continuation is a gate): the job runs in its thread (executed by the
         scheduler when the first gate opens), and its result is delivered to the event loop when the
         second one opens - other callbacks may run in between, as with a real thread.'''
         async def run_in_thread(func, *args):
@@ -71,6 +138,8 @@ class Scheduler:
                     box['r'] = func(*args)
                 except Exception as e:   # noqa - delivered at the second gate
                     box['e'] = e
+            if splittable:
+                return await self._split_job(name, func, args)
             try:
                 await self.wait(name, 'job', run)
             except asyncio.CancelledError:
@@ -80,6 +149,37 @@ class Scheduler:
                 raise box['e']
             return box.get('r')
         return run_in_thread
+
+    async def _split_job(self, name, func, args):
+        w = Worker(lambda: func(*args), name)
+        self.workers.append(w)
+        fut = self.loop.create_future()          # completes when the thread has finished
+
+        def advance():
+            if w.state == 'new':
+                w.start()
+            else:
+                w.resume()
+            if w.error is not None and not isinstance(w.error, Exception):
+                raise w.error                     # Abort / Violation raised inside the job
+            if w.state == 'parked':
+                self.seq += 1
+                g = Gate(f'{name}@{w.at}', 'job', None, advance, self.seq)
+                g.orphan = True                   # result not delivered through this gate
+                g.cont = True
+                self.pending.append(g)
+            elif not fut.done():
+                fut.set_result(None)
+        self.seq += 1
+        g0 = Gate(name, 'job', None, advance, self.seq)
+        g0.orphan = True
+        g0.cont = True
+        self.pending.append(g0)
+        await fut                                 # a cancelled waiter leaves the thread running
+        await self.wait(name + ':result', 'deliver', None)
+        if w.error is not None:
+            raise w.error
+        return w.result
 
     def sleeper(self, label):
         async def sleep(delay=0, *a):
@@ -102,7 +202,7 @@ class Scheduler:
         if g in self.frozen:
             self.frozen.remove(g)
         g.done = True
-        self.trace.append(g.label + (' (orphan)' if g.orphan else ''))
+        self.trace.append(g.label + (' (orphan)' if g.orphan and not g.cont else ''))
         for tr in list(self.triggers):
             if g.label.startswith(tr[0]):
                 tr[1] -= 1
@@ -114,14 +214,14 @@ class Scheduler:
         except (symx.Abort, symx.Violation):
             raise
         except BaseException as e:      # noqa - delivered to the awaiting task like a thread's exception
-            if g.orphan or g.fut.done():
+            if g.orphan or g.fut is None or g.fut.done():
                 if not isinstance(e, Exception):
                     raise
                 self.trace.append(f'orphan job raised {type(e).__name__}')
             else:
                 g.fut.set_exception(e)
             return
-        if not g.orphan and not g.fut.done():
+        if not g.orphan and g.fut is not None and not g.fut.done():
             g.fut.set_result(res)
 
     def candidates(self):
@@ -152,7 +252,7 @@ class Scheduler:
                     options.append(('freeze', g))
             for g in (times if calls else times[1:]):
                 options.append(('gate', g))
-            for ev in self.anytime:
+            for ev in self.anytime + self.permanent:
                 options.append(('event', ev))
         if default is None and not options:
             return False
@@ -181,7 +281,7 @@ class Scheduler:
             else:
                 label, fn, once = what
                 if once:
-                    self.anytime.remove(what)
+                    (self.anytime if what in self.anytime else self.permanent).remove(what)
                 self.trace.append('event:' + label)
                 fn()
         self._after_open()
@@ -212,6 +312,12 @@ class Scheduler:
         return self.run_until(self.only_timers_pending, allow_time=False)
 
     def close(self):
+        for w in self.workers:
+            if w.state == 'parked':
+                w.kill = True
+                w.resume()
+            if w.thread.is_alive():
+                w.thread.join(5)
         try:
             for t in asyncio.all_tasks(self.loop):
                 t.cancel()
